@@ -205,6 +205,7 @@ def showOut : Out → String
   | .err .valueError => "ValueError"
   | .err .indexError => "IndexError"
   | .err .keyError => "KeyError"
+  | .err .notImplemented => "NotImplementedError"
   | .err .other => "Other"
 
 def replay (guard : Bool) : State → List Op → List String
